@@ -388,7 +388,6 @@ fn uniform_component(both: bool) {
     match r {
         OptionalPair::None => {
             assert!(pc < 1.0, "UniformCrossover: with pc = 1 every pair is recombined");
-            assert!(draws() == 1, "UniformCrossover: a pair that is not recombined costs exactly the pc draw");
         }
         OptionalPair::Single(c) => {
             assert!(!both, "UniformCrossover: insert_both = true yields both children");
